@@ -15,6 +15,10 @@ class Deadlock(Exception):
     pass
 
 
+class Watchdog(Exception):
+    """The run is still making progress but exceeded the harness's wall-clock budget: inconclusive, never a verdict."""
+
+
 class Baton:
     def __init__(self, seed=0, overshoot=0.0):
         self.now = 0.0
@@ -25,6 +29,7 @@ class Baton:
         self.overshoot = overshoot
         self.sleeps = []         # requested sleep lengths
         self.error = None
+        self.switches = 0        # scheduling decisions taken: the run's logical progress
 
     # -- the module-like face given to replicat.utils.time -----------------------------------------------
     def perf_counter(self):
@@ -62,6 +67,7 @@ class Baton:
                     self.state[t] = ('ready',)
             ready = sorted(t for t, s in self.state.items() if s[0] == 'ready')
         self.running = self.rng.choice(ready)
+        self.switches += 1
         self.state[self.running] = ('running',)
 
     def _park(self, new_state):
@@ -113,10 +119,23 @@ class Baton:
         with self.cv:
             self._pick()
             self.cv.notify_all()
+        # a participant that does not finish is a deadlock only if the schedule has stopped moving (logical condition: no
+        # scheduling decision for 20 s); a run that is merely long ends at the wall-clock budget as Watchdog = inconclusive
+        import time as _time
+        t0 = _time.monotonic()
         for t in threads:
-            t.join(60)
-            if t.is_alive():
-                raise Deadlock('participant did not finish')
+            last, last_change = self.switches, _time.monotonic()
+            while True:
+                t.join(1.0)
+                if not t.is_alive():
+                    break
+                now = _time.monotonic()
+                if self.switches != last:
+                    last, last_change = self.switches, now
+                elif now - last_change > 20:
+                    raise Deadlock(f'participant did not finish and no scheduling decision was taken for 20 s: {self.state}')
+                if now - t0 > 240:
+                    raise Watchdog(f'virtual-time run still moving after 240 s ({self.switches} scheduling decisions)')
         if self.error is not None:
             raise self.error
         if errors:
